@@ -343,22 +343,9 @@ func genPeerOn(rt *rapid.T, nm *hx.NodeMachine, cfg genCfg, parent int) hx.NOp {
 	op := hx.NOp{Op: "peer", Label: label, Parent: parent, Proposer: rapid.IntRange(0, 2).Draw(rt, "proposer")}
 	s := nm.States[parent].Clone()
 	h := m.Blocks[parent].Height + 1
-	ntx := rapid.IntRange(0, 3).Draw(rt, "nptx")
-	for i := 0; i < ntx; i++ {
-		spec, ok := genTxSpec(rt, nm, s, cfg, 0, false)
-		if !ok {
-			break
-		}
-		tx, _ := buildForGen(nm, &spec, s)
-		if tx == nil || s.Check(tx, h) != nil {
-			continue
-		}
-		s.Apply(tx, hx.Ring[op.Proposer].Address)
-		op.Txs = append(op.Txs, spec)
-	}
 	// sometimes re-use transactions of blocks on OTHER branches that are still valid here (the same
 	// transaction on competing branches: transaction-to-block mapping, duplicate rule, reorganisation)
-	if rapid.IntRange(0, 3).Draw(rt, "foreign") == 0 {
+	if rapid.IntRange(0, 2).Draw(rt, "foreign") == 0 {
 		onChain := map[int]bool{}
 		for j := parent; j >= 0; j = m.Blocks[j].Parent {
 			onChain[j] = true
@@ -389,6 +376,19 @@ func genPeerOn(rt *rapid.T, nm *hx.NodeMachine, cfg genCfg, parent int) hx.NOp {
 				op.Old = append(op.Old, hex.EncodeToString(t.Txid))
 			}
 		}
+	}
+	ntx := rapid.IntRange(0, 3).Draw(rt, "nptx")
+	for i := 0; i < ntx; i++ {
+		spec, ok := genTxSpec(rt, nm, s, cfg, 0, false)
+		if !ok {
+			break
+		}
+		tx, _ := buildForGen(nm, &spec, s)
+		if tx == nil || s.Check(tx, h) != nil {
+			continue
+		}
+		s.Apply(tx, hx.Ring[op.Proposer].Address)
+		op.Txs = append(op.Txs, spec)
 	}
 	// sometimes include transactions the node has pending
 	inclOdds := 2
